@@ -1,0 +1,29 @@
+//go:build verif
+
+package json
+
+// Verification hooks (build tag verif only): observe the order in which parsed batches reach the reorder queue
+// and when the consumer learns that the line reader is done, and let a harness delay a parser worker.
+var (
+	VerifArrival     func(firstLine, count int)
+	VerifReaderDone  func()
+	VerifWorkerDelay func(firstLine int)
+)
+
+func verifJSONArrival(firstLine, count int) {
+	if f := VerifArrival; f != nil {
+		f(firstLine, count)
+	}
+}
+
+func verifJSONReaderDone() {
+	if f := VerifReaderDone; f != nil {
+		f()
+	}
+}
+
+func verifJSONBatchDelay(firstLine int) {
+	if f := VerifWorkerDelay; f != nil {
+		f(firstLine)
+	}
+}
